@@ -5,6 +5,7 @@ import (
 	"errors"
 	"time"
 
+	"github.com/PowerDNS/lightningstream/utils/verifhook"
 	"github.com/PowerDNS/lmdb-go/lmdb"
 	"github.com/PowerDNS/lmdb-go/lmdbscan"
 )
@@ -95,6 +96,10 @@ func (s *LimitScanner) Scan() bool {
 	// Check time limit
 	checkEvery := s.opt.LimitDurationCheckEvery
 	if checkEvery > 0 && s.count > 0 && s.count%checkEvery == 0 && !s.deadline.IsZero() {
+		if verifhook.Expired("limitscanner:deadline") {
+			s.limitReached = true
+			return false
+		}
 		if time.Now().After(s.deadline) {
 			s.limitReached = true
 			return false
